@@ -51,6 +51,7 @@ Proof.
   - contradiction.
   - (* Pdur *) brk H; inversion H; reflexivity.
   - inversion H; reflexivity.
+  - (* Pdur with tolerance / quant *) brk H; inversion H; reflexivity.
   - (* Pseq / Pn *) destruct cur as [s0|]; [|destruct rest as [|p r]].
     + cbn [ret_wf] in Hw. eapply (seq_go_ret (snext c K lib dep)); [intros; eapply IH; eassumption|exact Hw|exact H].
     + inversion H; reflexivity.
